@@ -548,6 +548,13 @@ class Executor(ExprMixin, StmtMixin, Engine):
                     yield s1, a
                     continue
                 it = a[0][0]
+                if isinstance(it.t, TList) and len(a[0]) == 2:
+                    # next(xs, default) on the list view of a generator that has not been advanced:
+                    # its first item, or the default when it yields nothing
+                    first = Val(it.t.elem, z3.Select(list_arr(it), 0))
+                    x, d = self.unify(first, a[0][1])
+                    yield s1, Val(x.t, z3.If(list_len(it) > 0, x.e, d.e))
+                    continue
                 if isinstance(it.t, TRef) and self.method_key(it.t.cls, '__next__'):
                     c = self.m.contracts[self.method_key(it.t.cls, '__next__')]
                     yield from self.call_contract(s1, c, [it], {}, node)
